@@ -172,7 +172,7 @@ def cloud(rng, n, d):
   return rng.randn(n, d).dot(B)
 
 
-COV_KINDS = ('full-rank', 'duplicate-feature', 'constant-feature', 'dependent-feature', 'few-samples', 'heterogeneous-scales')
+COV_KINDS = ('full-rank', 'duplicate-feature', 'constant-feature', 'dependent-feature', 'few-samples', 'heterogeneous-scales', 'narrow-integer-dtype')
 
 
 def covariance_datasets(rng, count):
@@ -197,6 +197,15 @@ def covariance_datasets(rng, count):
         X = rng.randint(-6, 7, size=(n, d)).astype(float)
         X[:, d - 1] = X[:, 0] + X[:, 1] if d > 2 else 2 * X[:, 0]
         rank = d - 1
+      elif kind == 'narrow-integer-dtype':
+        # 8-bit / 16-bit data (grey levels, counts): the VALUES are what matters, M is the inverse covariance of those numbers
+        dt = (np.uint8, np.int16, np.uint16)[int(rng.randint(3))]
+        hi = 250 if dt == np.uint8 else 30000
+        X = rng.randint(0, hi, size=(max(n, 3 * d), d)).astype(dt)
+        X[0] = hi - 1 - X[0] // 2                       # a large first sample: differences to it leave the dtype's range
+        made += 1
+        yield dict(kind=kind, d=d, n=len(X), rank=d, X=X)
+        break
       elif kind == 'heterogeneous-scales':
         # features recorded in very different units (standard deviations up to 3e5 apart): the covariance is invertible, its eigenvalues span
         # ~11 orders of magnitude -- far above any rank cut-off relative to machine precision
@@ -385,7 +394,7 @@ def check_covariance(ml, ds):
   if err:
     return bad('covariance-fit-error', err, **inp)
   M = est.get_mahalanobis_matrix()
-  S = np.atleast_2d(np.cov(X, rowvar=False))
+  S = np.atleast_2d(np.cov(np.asarray(X, dtype=float), rowvar=False))
   if ds.get('units') is not None:
     # reference through the well-conditioned covariance of the standardised features: inv(D R D) = D^-1 inv(R) D^-1
     u = ds['units']
